@@ -3,10 +3,9 @@ import OV.Drivers.Loop
 /-! Line-protocol driver for C10.
 
 `C10 conv <entry:ir|proto|native> <fb:none|yes|no> <target> <capi:ok|fail> decl=<n|_> ai=<n|_> in=<a,b|-> init=<a,b|-> <item>*`
-items:  `N <dflt01> <ver|_> <ref01> <op>`  top-level node of the current graph/function
-        `B`                                 opens a new body of the last node
-        `L <dflt01> <ver|_> <ref01> <op>`  leaf of the current body
-        `F <decl|_> <ai|_>`                opens a function (following N/B/L belong to it)
+items:  `N <dflt01> <ver|_> <ref01> <op>`  node of the graph being read
+        `{` … `}`                          a subgraph (body) of the last node, nested to any depth (used up to 4)
+        `F <decl|_> <ai|_>`                opens a function (following items belong to it)
 op:     `P:<name>` | `K:<s|v>:<i~i…>` | `GS:<mode|_>:<align|_>:<pad|_>` |
         `DFT:<axis|_>:<inv|_>:<one|_>:<len01>:<axisIn|_>:<rank>` |
         `GN:<hasX><hasS><hasB>:<g|_>:<eps|_>:<c>:<sLen>:<bLen>:<xVis><sVis><bVis>` (vis: m|s|k) | `CALL:<i>`
@@ -59,49 +58,45 @@ def parseLeaf (d v r o : String) : Option Leaf := do
   let d ← bool01 d; let v ← optNat v; let r ← bool01 r; let o ← parseOp o
   pure { dflt := d, op := o, version := v, refAttr := r }
 
-/-- Parser state: finished functions (reversed), current graph (model graph until the first `F`). -/
-structure PState where
-  mainNodes : List Node := []          -- reversed
-  funcs : List Func := []              -- reversed, nodes reversed
-  inFunc : Bool := false
+/-- Parsed node with its subgraphs (any nesting depth). -/
+inductive Tree
+  | mk (leaf : Leaf) (bodies : List (List Tree))
 
-def PState.pushNode (st : PState) (n : Node) : PState :=
-  if st.inFunc then
-    match st.funcs with
-    | f :: fs => { st with funcs := { f with nodes := n :: f.nodes } :: fs }
-    | [] => st
-  else { st with mainNodes := n :: st.mainNodes }
+/-- Truncating conversion to nesting depth `d` (the driver works at depth `DEPTH`; the harness never nests deeper). -/
+def toD : (d : Nat) → Tree → NodeD d
+  | 0, .mk l _ => l
+  | d + 1, .mk l bs => ({ leaf := l, bodies := bs.map (·.map (toD d)) } : Node (NodeD d))
 
-def PState.modLast (st : PState) (g : Node → Node) : PState :=
-  if st.inFunc then
-    match st.funcs with
-    | f :: fs => (match f.nodes with
-      | n :: ns => { st with funcs := { f with nodes := g n :: ns } :: fs }
-      | [] => st)
-    | [] => st
-  else match st.mainNodes with
-    | n :: ns => { st with mainNodes := g n :: ns }
-    | [] => st
+def DEPTH : Nat := 3
 
-def addBody (n : Node) : Node := { n with bodies := n.bodies ++ [[]] }
-def addLeaf (l : Leaf) (n : Node) : Node :=
-  match n.bodies.reverse with
-  | b :: bs => { n with bodies := (( b ++ [l]) :: bs).reverse }
-  | [] => n
+/-- Stack machine: the head of the stack is the (reversed) node list of the graph being read. -/
+def attachBody (body : List Tree) : List Tree → List Tree
+  | .mk l bs :: rest => .mk l (bs ++ [body]) :: rest
+  | [] => []
 
-def parseItems : List String → PState → Option PState
-  | [], st => some st
-  | "N" :: d :: v :: r :: o :: rest, st => do
+def parseNodes : List String → List (List Tree) → Option (List Tree)
+  | [], [top] => some top.reverse
+  | [], _ => none
+  | "N" :: d :: v :: r :: o :: rest, cur :: st => do
     let l ← parseLeaf d v r o
-    parseItems rest (st.pushNode { leaf := l, bodies := [] })
-  | "B" :: rest, st => parseItems rest (st.modLast addBody)
-  | "L" :: d :: v :: r :: o :: rest, st => do
-    let l ← parseLeaf d v r o
-    parseItems rest (st.modLast (addLeaf l))
-  | "F" :: d :: a :: rest, st => do
-    let d ← optNat d; let a ← optNat a
-    parseItems rest { st with funcs := { declared := d, aionnx := a, nodes := [] } :: st.funcs, inFunc := true }
+    parseNodes rest ((.mk l [] :: cur) :: st)
+  | "{" :: rest, st => parseNodes rest ([] :: st)
+  | "}" :: rest, body :: cur :: st => parseNodes rest (attachBody body.reverse cur :: st)
   | _, _ => none
+
+/-- Split the item tokens at the `F <decl> <ai>` markers. -/
+def splitFuncs : List String → List String → List (List String) → List (List String)
+  | [], cur, acc => (cur.reverse :: acc).reverse
+  | "F" :: d :: a :: rest, cur, acc => splitFuncs rest [a, d, "F"] (cur.reverse :: acc)
+  | t :: rest, cur, acc => splitFuncs rest (t :: cur) acc
+
+def parseFunc (seg : List String) : Option (Func (NodeD DEPTH)) :=
+  match seg with
+  | "F" :: d :: a :: items => do
+    let d ← optNat d; let a ← optNat a
+    let ts ← parseNodes items [[]]
+    pure { declared := d, aionnx := a, nodes := ts.map (toD (DEPTH + 1)) }
+  | _ => none
 
 def kv (key s : String) : Option String :=
   if s.startsWith (key ++ "=") then some (s.drop (key.length + 1)).toString else none
@@ -126,9 +121,12 @@ def showOp : Op → String
   | .call i => s!"CALL:{i}"
 
 def showLeaf (l : Leaf) : String := s!"{showB l.dflt}{showB l.refAttr}@{showOptNat l.version}/{showOp l.op}"
-def showNode (n : Node) : String :=
-  showLeaf n.leaf ++ String.join (n.bodies.map (fun b => "{" ++ ",".intercalate (b.map showLeaf) ++ "}"))
-def showNodes (ns : List Node) : String := ";".intercalate (ns.map showNode)
+def showD : (d : Nat) → NodeD d → String
+  | 0, l => showLeaf l
+  | d + 1, n =>
+    let n' : Node (NodeD d) := n
+    showLeaf n'.leaf ++ String.join (n'.bodies.map (fun b => "{" ++ ",".intercalate (b.map (showD d)) ++ "}"))
+def showNodes (ns : List (Node (NodeD DEPTH))) : String := ";".intercalate (ns.map (showD (DEPTH + 1)))
 def showNames (l : List String) : String := if l.isEmpty then "-" else ",".intercalate l
 
 def showErr : Option Err → String
@@ -140,13 +138,13 @@ def showErr : Option Err → String
   | some .importClash => "ValueError"
   | some .inlineClash => "PassError"
 
-def showModel (m : Model) (e : Option Err) : String :=
+def showModel (m : Model (NodeD DEPTH)) (e : Option Err) : String :=
   s!"err={showErr e} decl={showOptNat m.declared} ai={showOptNat m.aionnx} in={showNames m.inputs} " ++
   s!"init={showNames m.inits} nodes={showNodes m.nodes} funcs=" ++
   "|".intercalate (m.funcs.map (fun f => s!"{showOptNat f.declared}/{showOptNat f.aionnx}/{showNodes f.nodes}"))
 
 /-- Which branch of the entry logic a case takes (for the branch histogram). -/
-def branchOf (e : Entry) (fb : Fallback) (target : Nat) (capiOk : Bool) (m : Model) : String :=
+def branchOf (e : Entry) (fb : Fallback) (target : Nat) (capiOk : Bool) (m : Model (NodeD DEPTH)) : String :=
   match e with
   | .native => "native-direct"
   | _ =>
@@ -177,11 +175,13 @@ def handle (args : List String) : String :=
       let a ← (kv "ai" ai) >>= optNat
       let i ← kv "in" ins
       let n ← kv "init" inits
-      let st ← parseItems items {}
-      let m : Model := { declared := d, aionnx := a, nodes := st.mainNodes.reverse,
-                         funcs := st.funcs.reverse.map (fun fn => { fn with nodes := fn.nodes.reverse }),
-                         inputs := parseNames i, inits := parseNames n }
-      let capiF : CApi := fun _ _ => if capiOk then some [{ leaf := { dflt := true, op := .plain "CAPI", version := none, refAttr := false }, bodies := [] }] else none
+      let segs := splitFuncs items [] []
+      let mainTs ← parseNodes (segs.headD []) [[]]
+      let fs ← (segs.drop 1).mapM parseFunc
+      let m : Model (NodeD DEPTH) :=
+        { declared := d, aionnx := a, nodes := mainTs.map (toD (DEPTH + 1)),
+          funcs := fs, inputs := parseNames i, inits := parseNames n }
+      let capiF : CApi (NodeD DEPTH) := fun _ _ => if capiOk then some [{ leaf := { dflt := true, op := .plain "CAPI", version := none, refAttr := false }, bodies := [] }] else none
       let (m', err) := convertVersionApi e f t capiF m
       pure (s!"branch={branchOf e f t capiOk m} " ++ showModel m' err)
     r.getD "bad-op"
